@@ -208,7 +208,11 @@ impl Ctx {
             Ok(Ok(())) => ("held", String::new(), String::new()),
             Ok(Err(e)) if e.oracle == "__inconclusive" => ("inconc", "inconclusive".to_string(), e.detail),
             Ok(Err(e)) => ("fail", e.oracle, e.detail),
-            Err(_) => { let (loc, msg) = take_panic().unwrap_or(("?".into(), "?".into())); let p = PanicInfo { loc, msg }; ("fail", p.class(), format!("panic at {}: {}", p.loc, p.msg)) }
+            Err(_) => { let (loc, msg) = take_panic().unwrap_or(("?".into(), "?".into())); let p = PanicInfo { loc, msg };
+                // a panic raised by the harness's shared infrastructure (generators, rng, monitors) is a harness error, never a verdict on the library;
+                // a panic inside a driver (src/props/) stays a violation: drivers index library results and a short/garbled result must not be hidden
+                if p.loc.starts_with("src/") && !p.loc.starts_with("src/props/") { ("inconc", "inconclusive".to_string(), format!("harness panic at {}: {}", p.loc, p.msg)) }
+                else { ("fail", p.class(), format!("panic at {}: {}", p.loc, p.msg)) } }
         };
         self.executed += 1;
         let ns = self.samples.entry(target.to_string()).or_insert(0);
